@@ -88,7 +88,7 @@ func (prop) Describe() core.Description {
 		RealComponents: []string{"go-geom root package (constructors, Push, accessors)", "encoding/wkb", "encoding/ewkb", "encoding/wkbcommon", "encoding/wkbhex", "encoding/ewkbhex", "wkb/ewkb database/sql Scanner/Valuer wrappers", "stdlib io, encoding/binary, bytes, encoding/hex"},
 		StubComponents: []string{"io.Writer (simio.Writer: failure offset, short/whole-call, sticky/transient; optionally also io.ByteWriter or io.StringWriter)", "io.Reader (simio.Reader: chunking, stalls, data+EOF, error at offset, truncation; optionally also io.ByteReader)", "database/sql driver (Scan/Value are called directly)"},
 		FaultKinds:     []string{"write-fail-sticky-short", "write-fail-sticky-whole", "write-fail-transient", "read-split", "read-stall", "read-data+eof", "read-error", "read-error-with-data", "read-truncate"},
-		Probes:         []string{"probe:error-inside-count", "probe:split-inside-type-word", "probe:stall-before-byte-order", "probe:srid>=2^31", "probe:xdr+zm+empty-member", "probe:nested-collection", "probe:mixed-layout-collection", "probe:empty-point", "probe:rejected-unsupported-layout", "probe:rejected-empty-point", "probe:concatenated>=2", "probe:enum-capped", "probe:member-srid-round-trip", "probe:result-rechecked-after-later-calls", "probe:error-kind-temporary", "probe:error-kind-timeout", "probe:error-kind-unexpected-eof", "probe:error-kind-closed-pipe", "probe:error-kind-no-progress", "probe:element-limits-configured", "probe:wrapper-scanned-twice", "probe:wkb-of-geometry-with-srid", "probe:reader-with-ReadByte", "probe:writer-with-byte", "probe:writer-with-string"},
+		Probes:         []string{"probe:error-inside-count", "probe:untyped-wrapper-value", "probe:split-inside-type-word", "probe:stall-before-byte-order", "probe:srid>=2^31", "probe:xdr+zm+empty-member", "probe:nested-collection", "probe:mixed-layout-collection", "probe:empty-point", "probe:rejected-unsupported-layout", "probe:rejected-empty-point", "probe:concatenated>=2", "probe:enum-capped", "probe:member-srid-round-trip", "probe:result-rechecked-after-later-calls", "probe:error-kind-temporary", "probe:error-kind-timeout", "probe:error-kind-unexpected-eof", "probe:error-kind-closed-pipe", "probe:error-kind-no-progress", "probe:element-limits-configured", "probe:wrapper-scanned-twice", "probe:wkb-of-geometry-with-srid", "probe:reader-with-ReadByte", "probe:writer-with-byte", "probe:writer-with-string"},
 	}
 }
 
@@ -180,6 +180,7 @@ func (prop) Generate(r *prng.Rand, phase string) any {
 		layouts = append(layouts, 0)
 	}
 	cfg := mgeom.SwarmCfg(r, layouts)
+	cfg.ShareMembers = true // encoders only read: one member object may sit in a collection twice
 	if phase == "enum" {
 		// every fault position is enumerated: keep the messages short
 		cfg.ExactCoords, cfg.ExactParts = 0, 0
@@ -795,6 +796,23 @@ func oneGeomWrite(res *core.Result, log *core.Log, lib wkbadapt.Lib, s *Scenario
 		if !bytes.Equal(vb2, refNDR) {
 			res.Fail("bytes-differ", "sql-values-share-storage", "overwriting the first Value() result of %s changed the second to %x", e.m, vb2)
 			return false
+		}
+		// wkb's untyped wrapper (Geom) must hand the driver the same bytes as
+		// the typed one, and hold the geometry it was given
+		if !s.Codec.EWKB {
+			var gval any
+			var gerr error
+			var held geom.T
+			if p := core.Guard(func() { gval, held, gerr = lib.GenericValue(e.g) }); p != "" {
+				res.Fail("panic", "panic:value:"+core.PanicSite(p), "Value of the untyped wrapper panicked on %s: %s", e.m, p)
+				return false
+			}
+			gb, _ := gval.([]byte)
+			if gerr != nil || !bytes.Equal(gb, refNDR) || held != e.g {
+				res.Fail("bytes-differ", "bytes-differ:sql-value-untyped", "untyped wrapper: Value of %s = %x (%T), %v, Geom() is the geometry given: %v; reference NDR %x", e.m, gb, gval, gerr, held == e.g, refNDR)
+				return false
+			}
+			res.Count("probe:untyped-wrapper-value", 1)
 		}
 		// one wrapper, asked again after the geometry it holds has changed
 		// (another SRID for EWKB, which the bytes carry)
